@@ -308,6 +308,9 @@ func UnmarshalAttribute(attr *api.Attribute) (bgp.PathAttributeInterface, error)
 			},
 			TLVs: tlvs,
 		}
+		if length > 255 {
+			pathAttributeLs.Flags |= bgp.BGP_ATTR_FLAG_EXTENDED_LENGTH
+		}
 
 		return pathAttributeLs, nil
 
@@ -3591,6 +3594,9 @@ func UnmarshalPrefixSID(psid *api.PrefixSID) (*bgp.PathAttributePrefixSID, error
 		default:
 			return nil, fmt.Errorf("unknown or not implemented Prefix SID type: %+v", tlv)
 		}
+	}
+	if s.Length > 255 {
+		s.Flags |= bgp.BGP_ATTR_FLAG_EXTENDED_LENGTH
 	}
 	return s, nil
 }
